@@ -227,7 +227,7 @@ func c06Direct(e *Env) {
 		return out
 	}
 
-	nSteps := e.Range(4, 30)
+	nSteps := e.Range(4, 30*e.Depth())
 	for step := 0; step < nSteps; step++ {
 		e.Settle()
 		absorb()
